@@ -2168,6 +2168,9 @@ class Builder:
         if params.min_fidelity_all_at_end is not None:
             # If a min-fidelity constraint is specified, wrap the operation in a loop
             assert params.max_tries is not None
+            # (NV) make room at ID 0 once, before the loop: a re-try must not relocate
+            # (and hence allocate) the qubit that occupied it a second time.
+            self._build_cmds_free_up_qubit_location(0)
             with self.sdk_new_loop_until_context(params.max_tries) as loop:
                 qubits, results = self.sdk_epr_rsp_recv(
                     params=params, reset_results_array=True
